@@ -55,19 +55,27 @@ class Token(NamedTuple):
     marker: str | None = None  # marker name or error message
 
 
-def traverse(body: list[ast.AST | astroid.NodeNG]) -> Iterator[ast.AST | astroid.NodeNG]:
+def traverse(
+    body: list[ast.AST | astroid.NodeNG],
+    skip_try: bool = True,
+) -> Iterator[ast.AST | astroid.NodeNG]:
+    """Iterate over all nodes of the body.
+
+    If skip_try is True, the body of `try` blocks is not visited
+    (exceptions raised there are expected to be handled).
+    """
     for expr in body:
         if isinstance(expr, ast.AST):
-            yield from _traverse_ast(expr)
+            yield from _traverse_ast(expr, skip_try=skip_try)
         else:
-            yield from _traverse_astroid(expr)
+            yield from _traverse_astroid(expr, skip_try=skip_try)
 
 
-def _traverse_ast(node: ast.AST) -> Iterator[ast.AST]:
+def _traverse_ast(node: ast.AST, skip_try: bool = True) -> Iterator[ast.AST]:
     todo = deque([node])
     while todo:
         node = todo.popleft()
-        if isinstance(node, ast.Try):
+        if skip_try and isinstance(node, ast.Try):
             for h in node.handlers:
                 todo.extend(h.body)
             todo.extend(node.orelse)
@@ -77,11 +85,11 @@ def _traverse_ast(node: ast.AST) -> Iterator[ast.AST]:
             yield node
 
 
-def _traverse_astroid(node: astroid.NodeNG) -> Iterator[astroid.NodeNG]:
+def _traverse_astroid(node: astroid.NodeNG, skip_try: bool = True) -> Iterator[astroid.NodeNG]:
     todo: deque[astroid.NodeNG] = deque([node])
     while todo:
         node = todo.popleft()
-        if isinstance(node, astroid.Try):
+        if skip_try and isinstance(node, astroid.Try):
             for h in node.handlers:
                 todo.extend(h.body)
             todo.extend(node.orelse)
@@ -172,11 +180,13 @@ def _get_module(expr: astroid.NodeNG) -> astroid.Module | None:
 
 
 class Extractor:
-    __slots__ = ('handlers', )
+    __slots__ = ('handlers', 'skip_try')
     handlers: dict[type, Handler]
+    skip_try: bool
 
-    def __init__(self) -> None:
+    def __init__(self, skip_try: bool = True) -> None:
         self.handlers = dict()
+        self.skip_try = skip_try
 
     def register(
         self, *types: type | Callable[[], type],
@@ -205,7 +215,7 @@ class Extractor:
         return handler
 
     def __call__(self, body: list, **kwargs) -> Iterator[Token]:
-        for expr in traverse(body=body):
+        for expr in traverse(body=body, skip_try=self.skip_try):
             for token in self._handle(expr=expr, **kwargs):
                 yield self._ensure_node_info(expr=expr, token=token)
 
